@@ -15,12 +15,14 @@ from mc import engine
 from checks import common as c
 from checks import reqgen as rg
 
-NETS = ['P3', 'TRI', 'P3_lowpmax']
+NETS = ['P3', 'TRI', 'P3_lowpmax', 'P3_CL']
+SIMS = {'default': {}, 'ggn3': {'nli_params': {'method': 'ggn_spectrally_separated', 'computed_number_of_channels': 3},
+                                 'raman_params': {'flag': False}}}
 SPECTRUM_REASONS = {'NO_SPECTRUM', 'NOT_ENOUGH_RESERVED_SPECTRUM'}
 
 
 def library(net):
-    eq = c.eqpt_json('test')
+    eq = c.eqpt_json('test' if net != 'P3_CL' else 'eqpt_config_multiband.json')
     eq['Transceiver'].append({'type_variety': 'T_hard', 'frequency': {'min': 191.35e12, 'max': 196.1e12}, 'mode': [
         {'format': 'h1', 'baud_rate': 32e9, 'OSNR': 45, 'bit_rate': 100e9, 'roll_off': 0.15, 'tx_osnr': 40, 'min_spacing': 50e9,
          'cost': 1},
@@ -37,6 +39,11 @@ def library(net):
 
 def topology(net):
     span = lambda L: [c.fiber(L)]     # noqa
+    if net == 'P3_CL':
+        # two-band (C+L) line system: every amplifier on the routes is a Multiband_amplifier holding per-band amplifiers
+        bands = [{'f_min': 191.3e12, 'f_max': 196.1e12, 'spacing': 50e9}, {'f_min': 186.6e12, 'f_max': 190.0e12, 'spacing': 50e9}]
+        rp = {s: {'params': {'design_bands': bands}} for s in 'ABC'}
+        return c.build_topology(['A', 'B', 'C'], [('A', 'B', span(80), span(80)), ('B', 'C', span(70), span(70))], roadm_params=rp)
     if net in ('P3', 'P3_lowpmax'):
         return c.build_topology(['A', 'B', 'C'], [('A', 'B', span(80), span(80)), ('B', 'C', span(100), span(100))])
     return c.build_topology(['A', 'B', 'C'], [('A', 'B', span(80), span(80)), ('B', 'C', span(60), span(60)),
@@ -47,6 +54,11 @@ def menu():
     hot = 2e-3
     return {
         'light': rg.request('light', 'trx A', 'trx C', trx_type='Voyager', mode='mode 1', spacing=50e9, bandwidth=100e9),
+        # twins: identical except for the transmitter output power (one too weak to be equalised up to the ROADM target)
+        'twin_lo': rg.request('twin_lo', 'trx A', 'trx B', trx_type='Voyager', mode='mode 1', spacing=50e9, bandwidth=100e9,
+                              tx_power=1e-6),
+        'twin_hi': rg.request('twin_hi', 'trx A', 'trx B', trx_type='Voyager', mode='mode 1', spacing=50e9, bandwidth=100e9,
+                              tx_power=1e-3),
         'dense_hot': rg.request('dense_hot', 'trx A', 'trx C', trx_type='T_dense', mode='d1', spacing=37.5e9,
                                 bandwidth=300e9, power=hot),
         'auto': rg.request('auto', 'trx A', 'trx B', trx_type='Voyager', mode=None, spacing=75e9, bandwidth=200e9),
@@ -60,8 +72,8 @@ def menu():
     }
 
 
-def fresh(net):
-    return c.design(topology(net), library(net))
+def fresh(net, sim='default'):
+    return c.design(topology(net), library(net), sim=SIMS[sim])
 
 
 def summarize(rq, pp, rp):
@@ -79,9 +91,19 @@ def summarize(rq, pp, rp):
             'reason': None if reason in SPECTRUM_REASONS else reason}
 
 
+def all_amps(nodes):
+    """(name, amplifier) for every single-band amplifier and every per-band amplifier of the multi-band ones"""
+    from gnpy.core.elements import Edfa, Multiband_amplifier
+    for n in nodes:
+        if isinstance(n, Edfa):
+            yield n.uid, n
+        elif isinstance(n, Multiband_amplifier):
+            for band, a in n.amplifiers.items():
+                yield f'{n.uid}[{band}]', a
+
+
 def amp_settings(net):
-    from gnpy.core.elements import Edfa
-    return {n.uid: (n.effective_gain, n.delta_p, n.out_voa, n.tilt_target, n.in_voa) for n in net.nodes() if isinstance(n, Edfa)}
+    return {u: (n.effective_gain, n.delta_p, n.out_voa, n.tilt_target, n.in_voa) for u, n in all_amps(net.nodes())}
 
 
 def run_batch(network, equipment, names):
@@ -92,22 +114,21 @@ def run_batch(network, equipment, names):
     oms_list, ppaths, rpaths, rqs, dsjn, result = res
     out = {rq.request_id: summarize(rq, pp, rp) for rq, pp, rp in zip(rqs, ppaths, rpaths)}
     # did the propagated copies clamp their gain (saturation) while the designed network kept its own?
-    from gnpy.core.elements import Edfa
-    design = {n.uid: n.effective_gain for n in network.nodes() if isinstance(n, Edfa)}
+    design = {u: n.effective_gain for u, n in all_amps(network.nodes())}
     for rq, pp, rp in zip(rqs, ppaths, rpaths):
-        out[rq.request_id]['clamped'] = any(isinstance(e, Edfa) and e.effective_gain < design[e.uid] - 1e-9
-                                            for path in (pp, rp or []) for e in path)
+        out[rq.request_id]['clamped'] = any(a.effective_gain < design[u] - 1e-9
+                                            for path in (pp, rp or []) for u, a in all_amps(path))
     return out
 
 
 _SOLO = {}
 
 
-def solo(net, name):
-    if (net, name) not in _SOLO:
-        network, equipment, _, _ = fresh(net)
-        _SOLO[(net, name)] = run_batch(network, equipment, [name])[name]
-    return _SOLO[(net, name)]
+def solo(net, name, sim='default'):
+    if (net, name, sim) not in _SOLO:
+        network, equipment, _, _ = fresh(net, sim)
+        _SOLO[(net, name, sim)] = run_batch(network, equipment, [name])[name]
+    return _SOLO[(net, name, sim)]
 
 
 def compare(a, b):
@@ -130,15 +151,26 @@ def compare(a, b):
 
 
 def run_case(case):
+    net = case['net']
+    if case['kind'] == 'api':
+        return run_api(case)
+    sim = case.get('sim', 'default')
+    try:
+        return run_batches(case, net, sim)
+    finally:
+        c.set_sim_params({})
+
+
+def run_batches(case, net, sim):
     from gnpy.tools.json_io import network_to_json
     viol = []
-    net = case['net']
     tags = {}
     transitions = 0
     traces = 0
-    if case['kind'] == 'api':
-        return run_api(case)
-    network, equipment, _, _ = fresh(net)
+    for b in case['batches']:
+        for n in b:
+            solo(net, n, sim)          # reference results first: each on its own fresh network
+    network, equipment, _, _ = fresh(net, sim)
     export0 = json.dumps(network_to_json(network), sort_keys=True)
     amps0 = amp_settings(network)
     for bi, names in enumerate(case['batches']):
@@ -151,7 +183,12 @@ def run_case(case):
         ok = True
         for pos, n in enumerate(names):
             transitions += 1
-            d = compare(solo(net, n), got[n])
+            if n not in got:
+                viol.append(dict(fingerprint='request-has-no-result-of-its-own', what=f'{where}: no result under id {n}; ids '
+                                 f'returned: {sorted(got)}'))
+                ok = False
+                continue
+            d = compare(solo(net, n, sim), got[n])
             if d:
                 prev = names[:pos]
                 viol.append(dict(fingerprint=f'result-depends-on-batch:{d.split(":")[0].split(".")[0]}',
@@ -167,14 +204,15 @@ def run_case(case):
                              f'{amps0[ch[0]]} -> {a1[ch[0]]}'))
             ok = False
         traces += ok
-        if any(solo(net, n).get('clamped') for n in names) and len(names) > 1:
+        if any(solo(net, n, sim).get('clamped') for n in names) and len(names) > 1:
             tags['saturating-request-in-batch'] = 1
-        if len({solo(net, n)['reason'] for n in names}) > 1:
+        if len({solo(net, n, sim)['reason'] for n in names}) > 1:
             tags['mixed-outcomes'] = 1
     for v in viol:
         v['case'] = case
     return {'violations': viol[:6], 'transitions': transitions, 'traces': traces, 'nontrivial': len(case['batches'][0]) > 1,
-            'tags': tags, 'outcomes': [str(solo(net, n)['reason']) for b in case['batches'] for n in b], 'sample': case}
+            'tags': dict(tags, **{'sim:' + sim: 1, 'net:' + net: 1}),
+            'outcomes': [str(solo(net, n, sim)['reason']) for b in case['batches'] for n in b], 'sample': case}
 
 
 def run_api(case):
@@ -230,12 +268,20 @@ def main(rep, tier, seed):
             batches += [list(q) for i, q in enumerate(quads) if i % 20 == seed % 20]
         for b in batches:
             cases.append(dict(kind='batch', net=net, batches=[b]))
+        if net == 'P3':
+            # the same ordered pairs (and the histories below) under a GGN NLI method that evaluates 3 channels under test
+            # spread over each request's own comb
+            for b in batches:
+                if len(b) == 2:
+                    cases.append(dict(kind='batch', net=net, batches=[b], sim='ggn3'))
         # histories: two successive batches on the same network object
         firsts = [['dense_hot'], ['dense_bidir', 'auto'], ['blocked', 'nomode'], ['bidir', 'dense_hot']]
         seconds = [['light'], ['bidir'], ['auto', 'light'], ['dense_bidir']]
         for f in firsts:
             for s in seconds:
                 cases.append(dict(kind='batch', net=net, batches=[f, s]))
+                if net == 'P3':
+                    cases.append(dict(kind='batch', net=net, batches=[f, s], sim='ggn3'))
         prs = [('trx A', 'trx C'), ('trx A', 'trx B'), ('trx C', 'trx B'), ('trx B', 'trx A')]
         for k in (2, 3):
             for p in itertools.permutations(prs, k):
@@ -244,7 +290,8 @@ def main(rep, tier, seed):
     rep.absorb(results)
     rep.cov['bound'] = (f'{len(NETS)} networks x every ordered batch of 1-2 requests from a menu of {len(names)} + '
                         f'{"all" if tier == "thorough" else "1/6 of the"} ordered triples (+ sampled quadruples in the thorough tier) + '
-                        '16 two-batch histories on one network object + API-built request batches of 2-3')
+                        '16 two-batch histories on one network object + API-built request batches of 2-3; networks include a two-band (C+L) '
+                        'line system; on P3 every ordered pair and history also under ggn_spectrally_separated with 3 computed channels')
     rep.cov['space_size'] = len(cases)
     rep.cov['exhaustive'] = not stats['budget_hit'] and len(results) == len(cases)
     rep.cov['rule'] = ('a case = one batch (or two successive batches) through the real planning() on a freshly designed network; '
@@ -255,4 +302,5 @@ def main(rep, tier, seed):
                         'N/M and spectrum blocking reasons are excluded (they may depend on history)']
     rep.require(rep.tags.get('saturating-request-in-batch', 0) >= 10 and rep.tags.get('mixed-outcomes', 0) >= 10 and
                 rep.tags.get('api-batch', 0) >= 1, 'batches did not mix saturating / differently ending requests')
+    rep.require(rep.tags.get('sim:ggn3', 0) >= 10 and rep.tags.get('net:P3_CL', 0) >= 10, 'GGN / multiband variants did not run')
     rep.require(len(rep._outcomes) >= 4, f'fewer than 4 outcome kinds in the menu: {sorted(rep._outcomes)}')
